@@ -112,6 +112,8 @@ func (pcounter *LogProcessCounterSet) SelectMetricKeySet(record *LogRecord) *Log
 
 	tempMergedKey := pcounter.mergeKeyBuffer
 	for _, tkey := range tempKeys {
+		// length prefix: plain concatenation would merge different key sets, e.g. ("ab","c") and ("a","bc")
+		tempMergedKey = append(tempMergedKey, byte(len(tkey)>>24), byte(len(tkey)>>16), byte(len(tkey)>>8), byte(len(tkey)))
 		tempMergedKey = append(tempMergedKey, tkey...)
 	}
 	pcounter.mergeKeyBuffer = tempMergedKey[:0]
